@@ -7,6 +7,7 @@ mod gen;
 mod ledger;
 mod model;
 mod pairs;
+mod report;
 
 use std::io::{BufRead, BufWriter, Write};
 
@@ -91,6 +92,16 @@ fn main() {
                 }
             }
             println!("segments {n}");
+        }
+        "report-run" => {
+            let cases = read_cases(&arg(&args, "--in").expect("--in"));
+            let out = arg(&args, "--out").expect("--out");
+            let recs = par_map(&cases, threads, |c| report::report_record(c));
+            let mut w = BufWriter::new(std::fs::File::create(out).unwrap());
+            for r in &recs {
+                writeln!(w, "{}", serde_json::to_string(r).unwrap()).unwrap();
+            }
+            eprintln!("reports {}", recs.len());
         }
         "pairs" => {
             // --kind opening|split : derive paired executions from base cases; writes the pair records
